@@ -85,6 +85,12 @@ func loadProg(repo string, trustedDir string) (*Prog, error) {
 		BuildFlags: []string{"-tags=verif"},
 		Env:        append(os.Environ(), "GOFLAGS=-mod=mod", "GOPROXY=off", "GOSUMDB=off", "GOTOOLCHAIN=local"),
 	}
+	// C03: the grammar's semantic actions, extracted from parser.go into an overlay file (see actions.go)
+	if content, _, aerr := extractActions(filepath.Join(repo, "parser", "parser.go")); aerr == nil {
+		cfg.Overlay = map[string][]byte{filepath.Join(repo, "parser", actionsOverlayName): content}
+	} else {
+		fmt.Fprintln(os.Stderr, "govc: semantic actions not extracted:", aerr)
+	}
 	pkgs, err := packages.Load(cfg, "./...")
 	if err != nil {
 		return nil, err
@@ -189,6 +195,9 @@ func loadProg(repo string, trustedDir string) (*Prog, error) {
 			}
 			P.SpecFiles = append(P.SpecFiles, m)
 		}
+	}
+	if err := resolveActionContracts(P, P.Spec); err != nil {
+		return nil, err
 	}
 	tfiles, _ := filepath.Glob(filepath.Join(trustedDir, "*.spec"))
 	sort.Strings(tfiles)
